@@ -284,6 +284,9 @@ func ValueOf(it *simdjson.Iter, typ simdjson.Type) (v abs.Value, err error) {
 	return valueA(it, typ, &budget{n: 1 << 20})
 }
 
+// depthOK limits the repeated re-reads to values that are not themselves deep (the re-reads multiply with the depth).
+func depthOK(v abs.Value) bool { return v.Depth() <= 3 }
+
 // ---- B: AdvanceIter / ForEach ----------------------------------------------
 
 func valueB(it *simdjson.Iter, typ simdjson.Type, b *budget) (abs.Value, error) {
@@ -326,6 +329,7 @@ func valueB(it *simdjson.Iter, typ simdjson.Type, b *budget) (abs.Value, error) 
 		var elem simdjson.Iter
 		for {
 			b.step()
+			before := ai
 			t, err := ai.AdvanceIter(&elem)
 			if err != nil {
 				return abs.Value{}, err
@@ -340,6 +344,22 @@ func valueB(it *simdjson.Iter, typ simdjson.Type, b *budget) (abs.Value, error) 
 			}
 			if err := ifaceAgrees(pos, v, b, "Iter.AdvanceIter"); err != nil {
 				return abs.Value{}, err
+			}
+			if b.small && depthOK(v) {
+				// "If dst and i are the same, both will contain the value inside": the same step on a copy of the array iterator
+				// as it stood before this element, with itself as destination
+				self := before
+				st, serr := self.AdvanceIter(&self)
+				if serr != nil || st != t {
+					return abs.Value{}, fmt.Errorf("AdvanceIter(dst == receiver): type %v err %v, want %v", st, serr, t)
+				}
+				sv, serr := valueB(&self, st, &budget{n0: b.n0, n: b.n0})
+				if serr != nil {
+					return abs.Value{}, fmt.Errorf("AdvanceIter(dst == receiver): %w", serr)
+				}
+				if merr := abs.Match(v, sv, true); merr != nil {
+					return abs.Value{}, fmt.Errorf("AdvanceIter(dst == receiver) exposes another value: %w", merr)
+				}
 			}
 			out.Arr = append(out.Arr, v)
 		}
@@ -464,6 +484,26 @@ func valueD(it *simdjson.Iter, typ simdjson.Type, b *budget) (abs.Value, error) 
 		if err != nil {
 			return abs.Value{}, err
 		}
+		// Elements.Index / Lookup: the LAST member with a name is the one indexed
+		for i := range elems.Elements {
+			last := true
+			for j := i + 1; j < len(elems.Elements); j++ {
+				if elems.Elements[j].Name == elems.Elements[i].Name {
+					last = false
+				}
+			}
+			if last {
+				if idx, ok := elems.Index[elems.Elements[i].Name]; !ok || idx != i {
+					return abs.Value{}, fmt.Errorf("Elements.Index[%q] = %d (present %v), want %d", elems.Elements[i].Name, idx, ok, i)
+				}
+				if le := elems.Lookup(elems.Elements[i].Name); le == nil || le != &elems.Elements[i] {
+					return abs.Value{}, fmt.Errorf("Elements.Lookup(%q) does not return member %d", elems.Elements[i].Name, i)
+				}
+			}
+		}
+		if len(elems.Index) > len(elems.Elements) {
+			return abs.Value{}, fmt.Errorf("Elements.Index has %d entries for %d members", len(elems.Index), len(elems.Elements))
+		}
 		out := abs.Value{K: 'o', Obj: []abs.Member{}}
 		for i := range elems.Elements {
 			b.step()
@@ -477,6 +517,28 @@ func valueD(it *simdjson.Iter, typ simdjson.Type, b *budget) (abs.Value, error) 
 				return abs.Value{}, err
 			}
 			out.Obj = append(out.Obj, abs.Member{Key: []byte(e.Name), Val: v})
+		}
+		if b.small && depthOK(out) {
+			// Object.Map into a map that already has an entry: the entry stays, every member is added
+			cp := *it
+			if o2, e2 := cp.Object(nil); e2 == nil {
+				m := map[string]interface{}{"\x00stale": "kept"}
+				m2, merr := o2.Map(m)
+				if merr != nil {
+					return abs.Value{}, fmt.Errorf("Object.Map(non-empty map): %w", merr)
+				}
+				if m2["\x00stale"] != "kept" {
+					return abs.Value{}, fmt.Errorf("Object.Map(non-empty map) dropped the entry that was there")
+				}
+				delete(m2, "\x00stale")
+				got, ferr := FromInterface(m2)
+				if ferr != nil {
+					return abs.Value{}, ferr
+				}
+				if merr := abs.Match(out, got, false); merr != nil {
+					return abs.Value{}, fmt.Errorf("Object.Map(non-empty map) disagrees with Object.Parse: %w", merr)
+				}
+			}
 		}
 		return out, nil
 	case simdjson.TypeArray:
